@@ -85,7 +85,10 @@ func DefaultFormatter(buf []byte, n Number, f Format) ([]byte, error) {
 	b.WriteString(toTens(r, f))
 	b.WriteString(toUnits(i, f))
 	if f&FormatLowerCase != 0 {
-		return toLower(b.Bytes()), nil
+		// convert only the appended numeral, never the bytes the caller already had in buf
+		out := b.Bytes()
+		toLower(out[len(buf):])
+		return out, nil
 	}
 	return b.Bytes(), nil
 }
